@@ -76,6 +76,10 @@ type FuncContract struct {
 	Replay   []string
 	CallGhosts []*Clause
 	Cases    []*Clause
+	LoopLemmas map[int][]*Clause
+	ExitLemmas []*Clause
+	Opaque   bool
+	Reveal   []string
 }
 
 type CallbackContract struct {
@@ -159,6 +163,13 @@ func parseContracts(fset *token.FileSet, f *ast.File, pkgPath string) ([]*FuncCo
 				cur.Pure = true
 			case "inline":
 				cur.Inline = true
+			case "opaque":
+				// pure function whose definition is hidden (an uninterpreted function of its arguments)
+				// except inside functions whose contract says `reveal NAME`
+				cur.Pure = true
+				cur.Opaque = true
+			case "reveal":
+				cur.Reveal = append(cur.Reveal, strings.Fields(rest)...)
 			case "recursive":
 				// recursive spec function: an uninterpreted function with its definition unfolded at each application (to the given depth, default 1)
 				cur.Pure = true
@@ -188,7 +199,8 @@ func parseContracts(fset *token.FileSet, f *ast.File, pkgPath string) ([]*FuncCo
 				cl.CbName, cl.Ghost, cl.Text = fs[0], fs[1], strings.TrimSpace(rest[e+1:])
 				cur.CallGhosts = append(cur.CallGhosts, cl)
 			case "lemma":
-				cur.Lemmas = true
+				// ghost call of a lemma function at every return, before the ensures clauses are checked
+				cur.ExitLemmas = append(cur.ExitLemmas, cl)
 			case "old":
 				i := strings.Index(rest, "=")
 				if i < 0 {
@@ -247,6 +259,12 @@ func parseContracts(fset *token.FileSet, f *ast.File, pkgPath string) ([]*FuncCo
 					cur.LoopUnroll[n] = kk
 				case "assigns":
 					cur.LoopAssigns[n] = cl
+				case "lemma":
+					// ghost call of a lemma function (verified separately) at the loop head and on the back edge
+					if cur.LoopLemmas == nil {
+						cur.LoopLemmas = map[int][]*Clause{}
+					}
+					cur.LoopLemmas[n] = append(cur.LoopLemmas[n], cl)
 				default:
 					return nil, fmt.Errorf("%s: unknown loop clause %q", fset.Position(cm.Pos()), k)
 				}
